@@ -100,13 +100,16 @@ def reqresp_oracle(ix: Index, scn: dict) -> list[Violation]:
         if op.cancelled:
             continue
         same_turn_ok = stop_key is not None and stop_key[0] >= end_turn - 1
+        # an application subscriber that raises during the very delivery of the stop message ends that delivery (and, one
+        # turn later, the session) before the handlers behind it ran: the call may have been one of them
+        raised_in_stop = stop_key is not None and any(ev[3] == "cb_raise" and stop_key[1] < ev[0] and ev[1] == stop_key[0] for ev in ix.h)
         if err.get("cls") == "TimeoutAPIError":
             stall_d = sum(dd for sq, dd in ix.stalls if op.s0 < sq < op.s1)
             if (abs(op.t1 - t_deadline) > 1e-6 * max(1.0, timeout)) if not stall_d else not (t_deadline - 1e-6 <= op.t1 <= t_deadline + stall_d + 1e-6):
                 out.append(Violation("timeout-time", "", f"{op.actor} timed out at t={op.t1:.9f}, expected exactly {t_deadline:.9f} (issued {op.t0:.9f} + {timeout})"))
             # within one turn I/O callbacks run before due timers: a stop message dispatched in the turn in which the
             # timeout timer fired (end_turn - 1) completed the call first, also when the loop was stalled past the deadline
-            if stop_key is not None and stop_key[0] <= end_turn - 1:
+            if stop_key is not None and stop_key[0] <= end_turn - 1 and not raised_in_stop:
                 out.append(Violation("timeout-despite-response", "", f"{op.actor} timed out although its stop message was delivered at t={stop_key[2]:.6f} (turn {stop_key[0]}) before the deadline {t_deadline:.6f}"))
             continue
         if not wrote and not err.get("api"):
@@ -120,7 +123,10 @@ def reqresp_oracle(ix: Index, scn: dict) -> list[Violation]:
             continue
         if not err.get("api"):
             out.append(Violation("error-class", str(err.get("cls")), f"{op.actor} raised non-API {err.get('cls')} on connection loss"))
-        if stop_key is not None and stop_key[1] < closed:
+        # an application subscriber that raises during the very delivery of the stop message ends the session before the
+        # handlers behind it ran: the call may have been one of them
+        raised_in_delivery = stop_key is not None and any(ev[3] == "cb_raise" and stop_key[1] < ev[0] < closed and ev[1] == stop_key[0] for ev in ix.h)
+        if stop_key is not None and stop_key[1] < closed and not raised_in_delivery:
             out.append(Violation("error-despite-response", "", f"{op.actor} failed with {err.get('cls')} although its stop message had been delivered at turn {stop_key[0]} before the close at turn {closed_turn}"))
     # nothing left behind, however the call ended: a few zero-time turns after each call ended, every request timeout
     # timer still armed belongs to a call that is still running
@@ -217,7 +223,8 @@ def gen_c11(rng: random.Random) -> dict:
     if rng.random() < 0.3:
         # a plain subscriber on the calls' response types, unsubscribed (twice: the callable is idempotent) around the calls
         w, t0, timeout, types, key = pick(rng, calls)
-        ssteps = [{"do": "add_cb", "sid": "s0", "types": rng.sample(types, rng.randint(1, len(types))), "behaviors": []}, {"do": "sleep", "d": pick(rng, [0.0, 0.05, 0.3])}, {"do": "remove_cb", "sid": "s0"}]
+        beh = [{"on_call": rng.randint(1, 2), "do": "raise"}] if rng.random() < 0.25 else []  # a buggy application callback
+        ssteps = [{"do": "add_cb", "sid": "s0", "types": rng.sample(types, rng.randint(1, len(types))), "behaviors": beh}, {"do": "sleep", "d": pick(rng, [0.0, 0.05, 0.3] if not beh else [0.6, 1.5])}, {"do": "remove_cb", "sid": "s0"}]
         for _ in range(rng.randint(1, 2)):
             ssteps += [{"do": "sleep", "d": pick(rng, [0.0, 0.02, 0.1, 0.3, 0.6])}, {"do": "remove_cb", "sid": "s0"}]
         actors.append({"id": "s", "at": {"t": t0 - pick(rng, [0.4, 0.2, 0.05, 0.0])}, "steps": ssteps})
